@@ -5,6 +5,7 @@ package harness
 import (
 	"bytes"
 	"fmt"
+	"strings"
 	"testing"
 
 	"github.com/pion/rtp/codecs"
@@ -147,6 +148,9 @@ func checkC12Pay(r *run, c *VP9PayCase) (CaseInfo, error) {
 			if len(payload) == 0 {
 				return ci, failf("%s: empty payload", what)
 			}
+			if absent := vp9Absent(vp); absent != "" {
+				return ci, failf("%s: decoded with fields the descriptor does not carry: %s (one receiver for the stream: %v)", what, absent, c.OneReceiver)
+			}
 			cat = append(cat, payload...)
 			parts = append(parts, payload)
 			first, last := pi == 0, pi == len(pkts)-1
@@ -261,6 +265,35 @@ func vp9LibObs(p *codecs.VP9Packet) string {
 	return s
 }
 
+// vp9Absent names the fields of a decoded VP9Packet that hold a value although the flags of the same packet say the
+// descriptor did not carry them.
+func vp9Absent(p *codecs.VP9Packet) string {
+	var bad []string
+	if !p.I && p.PictureID != 0 {
+		bad = append(bad, fmt.Sprintf("PictureID=%d without I", p.PictureID))
+	}
+	if !p.L && (p.TID != 0 || p.U || p.SID != 0 || p.D || p.TL0PICIDX != 0) {
+		bad = append(bad, fmt.Sprintf("layer indices tid%d u%v sid%d d%v tl0%d without L", p.TID, p.U, p.SID, p.D, p.TL0PICIDX))
+	}
+	if p.L && p.F && p.TL0PICIDX != 0 {
+		bad = append(bad, fmt.Sprintf("TL0PICIDX=%d in flexible mode", p.TL0PICIDX))
+	}
+	if !(p.F && p.P) && len(p.PDiff) != 0 {
+		bad = append(bad, fmt.Sprintf("PDiff=%v without F and P", p.PDiff))
+	}
+	if !p.V && (p.NS != 0 || p.Y || p.G || p.NG != 0) {
+		bad = append(bad, fmt.Sprintf("ns%d y%v g%v ng%d without V", p.NS, p.Y, p.G, p.NG))
+	}
+	if !(p.V && p.Y) && (len(p.Width) != 0 || len(p.Height) != 0) {
+		bad = append(bad, fmt.Sprintf("w%v h%v without V and Y", p.Width, p.Height))
+	}
+	if !(p.V && p.G) && (p.NG != 0 || len(p.PGTID) != 0 || len(p.PGU) != 0 || len(p.PGPDiff) != 0) {
+		bad = append(bad, fmt.Sprintf("ng%d and %d/%d/%d picture group entries without V and G", p.NG, len(p.PGTID), len(p.PGU), len(p.PGPDiff)))
+	}
+
+	return strings.Join(bad, "; ")
+}
+
 func checkC12Desc(r *run, c *VP9DescCase) (CaseInfo, error) {
 	var ci CaseInfo
 	db := vp9desc.Build(&c.D)
@@ -320,6 +353,11 @@ func checkC12Desc(r *run, c *VP9DescCase) (CaseInfo, error) {
 	}
 	if got, want := vp9LibObs(&vp), vp9Obs(&c.D); got != want {
 		return ci, failf("descriptor %s decoded as\n  %s\nwant\n  %s", hx(db), got, want)
+	}
+	// "exactly the encoded values" includes the fields the descriptor does not carry: a receiver (fresh, or used for
+	// other descriptors before) reports none of them - no reference index, no layer index, no scalability structure
+	if absent := vp9Absent(&vp); absent != "" {
+		return ci, failf("descriptor %s (%s) decoded with fields it does not carry: %s (receiver used before: %v)", hx(db), vp9Obs(&c.D), absent, len(c.Pre) > 0)
 	}
 	if c.D.V && c.D.G && (len(vp.PGTID) != len(c.D.PGs) || len(vp.PGU) != len(c.D.PGs) || len(vp.PGPDiff) != len(c.D.PGs)) {
 		return ci, failf("descriptor %s: %d picture groups decoded into %d/%d/%d entries", hx(db), len(c.D.PGs), len(vp.PGTID), len(vp.PGU), len(vp.PGPDiff))
@@ -562,7 +600,7 @@ func genVP9DescCase1(t *rapid.T) *VP9DescCase {
 	return c
 }
 
-const ruleC12 = "payloader: 1-4 frames whose uncompressed header prefix is written bit by bit by an independent writer (profiles 0-3 with reserved bit, show_existing_frame, key/non-key, all colour spaces incl. RGB, subsampling bits, size-1 in [0,65534]^2, garbage in reserved and trailing bits) followed by 0-5000 random bytes (one case in 60: a frame of 65520-200000 bytes; one in 300: a single frame that needs 65530-70000 packets at the smallest MTU), flexible and non-flexible mode (one case in six flips the public FlexibleMode field between frames), MTU >= 4 (>= 12 when a non-flexible key frame occurs) biased to the thresholds (one case in five changes the MTU between frames; one in six hands the payloader an empty or nil buffer between frames), initial picture id biased to 0,127,128,32766,32767,65535 or (one case in six) left to the library's default, then learned from the first packet; every packet is decoded by VP9Packet (a fresh one per packet, or one for the whole stream) and by an independent RFC 9628 descriptor parser: concatenation = frame, B/E placement, IsPartitionHead=B, F=mode, 15-bit id constant per frame and +1 per frame mod 2^15, <= MTU, non-flexible P=non-key and V/Y/width/height on the first packet of a key frame. descriptor: reference-built descriptors (I 7/15 bit, L, F with I, 1-3 P_DIFF, SS with N_S 0-7, Y, G, N_G 0-255 with R 0-3; SID 0-4 since pion supports 5 spatial layers by design) + payload (0-40 bytes, one case in a hundred followed by 64 KiB more), all truncations rejected; half of the cases decode 1-2 other descriptors into the same VP9Packet first; one case in eight runs in zero-allocation mode (only acceptance and the returned bytes are checked). header: vp9.Header.Unmarshal equals the writer's fields and rejects every short byte prefix. Non-trivial = >=2 packets, non-flexible key frame with profile>=1 or RGB, SS with picture groups, >=2 P_DIFF, truncation, key-frame header; distinct = FNV-64 of the JSON case"
+const ruleC12 = "payloader: 1-4 frames whose uncompressed header prefix is written bit by bit by an independent writer (profiles 0-3 with reserved bit, show_existing_frame, key/non-key, all colour spaces incl. RGB, subsampling bits, size-1 in [0,65534]^2, garbage in reserved and trailing bits) followed by 0-5000 random bytes (one case in 60: a frame of 65520-200000 bytes; one in 300: a single frame that needs 65530-70000 packets at the smallest MTU), flexible and non-flexible mode (one case in six flips the public FlexibleMode field between frames), MTU >= 4 (>= 12 when a non-flexible key frame occurs) biased to the thresholds (one case in five changes the MTU between frames; one in six hands the payloader an empty or nil buffer between frames), initial picture id biased to 0,127,128,32766,32767,65535 or (one case in six) left to the library's default, then learned from the first packet; every packet is decoded by VP9Packet (a fresh one per packet, or one for the whole stream) and by an independent RFC 9628 descriptor parser: concatenation = frame, B/E placement, IsPartitionHead=B, F=mode, 15-bit id constant per frame and +1 per frame mod 2^15, <= MTU, non-flexible P=non-key and V/Y/width/height on the first packet of a key frame. descriptor: reference-built descriptors (I 7/15 bit, L, F with I, 1-3 P_DIFF, SS with N_S 0-7, Y, G, N_G 0-255 with R 0-3; SID 0-4 since pion supports 5 spatial layers by design) + payload (0-40 bytes, one case in a hundred followed by 64 KiB more), all truncations rejected; half of the cases decode 1-2 other descriptors into the same VP9Packet first; one case in eight runs in zero-allocation mode (only acceptance and the returned bytes are checked); after every decode - descriptor sub-check and each packet of the payloader sub-check - every field the descriptor does not carry must be zero or empty (PictureID without I, layer indices without L, TL0PICIDX in flexible mode, PDiff without F and P, SS fields without V, sizes without Y, picture groups without G). header: vp9.Header.Unmarshal equals the writer's fields and rejects every short byte prefix. Non-trivial = >=2 packets, non-flexible key frame with profile>=1 or RGB, SS with picture groups, >=2 P_DIFF, truncation, key-frame header; distinct = FNV-64 of the JSON case"
 
 func TestC12(t *testing.T) {
 	r := begin(t, "C12", "exploration", ruleC12)
